@@ -354,6 +354,30 @@ func c16ShortLong(r *Run) {
 	}
 }
 
+// v-once beside another directive on the same element (v-pre, v-show, v-html, a bound attribute): the element is
+// still one element, emitted at its first instantiation only - in a loop, in a component included from a loop
+func c16WithOtherDirectives(r *Run) {
+	comp := `<style v-once>.w{}</style><script v-once v-pre>var tpl = "{{ raw }}"; boot()</script><i>{{ n }}</i>`
+	m := fstest.MapFS{"comp/widget.vuego": &fstest.MapFile{Data: []byte(comp)},
+		"page.vuego": &fstest.MapFile{Data: []byte(`<div v-for="n in l3"><template include="comp/widget.vuego" :n="n"></template></div>` +
+			`<section v-for="n in l3"><script v-once v-pre>init("{{ x }}")</script><em v-once v-show="yes">shown</em><u v-once :title="link">t</u><s v-once v-html="h"></s></section>`)}}
+	want := map[string]int{"boot()": 1, ".w{}": 1, `init(`: 1, "<em": 1, "<u ": 1, "<s>": 1, "{{ raw }}": 1, "{{ x }}": 1}
+	for _, entry := range []string{"render", "load", "string"} {
+		for round := 1; round <= 2; round++ {
+			out, err := miniRenderEntry(m, entry, "page.vuego", map[string]any{"l3": []any{1, 2, 3}, "yes": true, "link": "L", "h": "<b>x</b>"})
+			r.Eval(fmt.Sprintf("once-with-directives:%s:%d", entry, round), true, nil)
+			r.Count("stream:once-with-other-directives(oracle only)")
+			for frag, n := range want {
+				if got := strings.Count(out, frag); err != nil || got != n {
+					r.Fail("a v-once element that carries another directive is not emitted exactly once", map[string]string{"oracle": "once-with-directives", "entry": entry, "fragment": frag},
+						map[string]any{"entry": entry, "fragment": frag, "count": got, "expected": n, "output": out, "err": fmt.Sprint(err)})
+					break
+				}
+			}
+		}
+	}
+}
+
 func init() { streams["C16"] = runC16 }
 
 func runC16(r *Run) {
@@ -363,6 +387,7 @@ func runC16(r *Run) {
 		"the expanded forest comes from rendering the same program with v-once renamed to a marker attribute; (shorthand) pages of nested component includes with v-once, v-for, v-if, bound attributes and slot content on the include itself, written once as <template include> and once as registered shorthand tags: the two must render the same bytes; non-trivial: some marked element is instantiated >= 2 times or >= 2 marked elements exist")
 	r.Assume("the keys written by the harness (file#element, prefixed by the layout link) identify source elements; the model is told nothing about the implementation's own id scheme")
 	c16ShortLong(r)
+	c16WithOtherDirectives(r)
 	rr := r.Rng
 	n := 500
 	if r.Thorough() {
